@@ -35,7 +35,7 @@ for p in props:
         "evidence_file": f"evidence/{pid}.json",
         "replay_cmd_template": f"./check {pid} --replay {{path}}",
         "engine": "+".join(be),
-        "level_claimed": {"category": P["level"], "text": P.get("level_text") or P["explanation"], "design_ref": f"DESIGN.md section 4, {pid}"},
+        "level_claimed": {"category": P["level"], "text": P.get("level_prefix", "") + (P.get("level_text") or P["explanation"]), "design_ref": f"DESIGN.md section 4, {pid}"},
         "level_note": P.get("level_note") or ("Trusted: Verus/Z3, Kani/CBMC, the extractor's logged edit list, prelude models of dependencies (listed in evidence assumptions). Not covered: " + P.get("not_covered", "")),
         "technique": P.get("technique") or "contract-based deductive verification: Verus contracts on functions extracted from /repo each run, lemmas over the contracts; Kani complete/bounded harnesses on the compiled crate for what Verus cannot parse and for counterexamples",
     })
